@@ -28,10 +28,13 @@ from common import COQ, REPO, cz, clist, cnat, cbool, copt
 
 LEVEL = "proof"
 THEOREMS = "Props/C03.v"
-EXTRA_TARGETS = ("Traj/Encode.vo", "Traj/FlowProofs.vo", "Gen/TrajFlow.vo")
+EXTRA_TARGETS = ("Traj/Encode.vo", "Traj/FlowProofs.vo", "Traj/ExtraProofs.vo", "Gen/TrajFlow.vo")
 EXTS = ["_rmsd"]
 RULE = ("operation histories over {t[key] (int, negative int, slice incl. reversed/strided/clipped, index list/array, "
-        "bool mask), slice(copy=False), join / + / join(list) / md.join each with discard_overlapping_frames off and on "
+        "bool mask; integers also as np.int64 / np.int32 / np.uint8 / 0-d array / 1-tuple, index lists also as range / list of "
+        "numpy ints / int32 array / 1-tuple holding an array, masks also as Python lists of bools), restrict_atoms(inplace F/T), "
+        "make_molecules_whole / image_molecules (inplace F/T), smooth(inplace F/T), analysis / save / getter / pickle calls as "
+        "observers inside the history (each must leave every trajectory object identical), slice(copy=False), join / + / join(list) / md.join each with discard_overlapping_frames off and on "
         "(a dedicated stream joins consecutive chunks of one run that share a frame: centred before or after the cut, "
         "one or two seams, equal xyz with different time, two-frame overlaps, one-frame operands, empty operands), stack, atom_slice(inplace F/T), remove_solvent, "
         "center_coordinates(mass_weighted F/T), superpose, xyz/time/unitcell_* assignment (fresh or shared arrays)} on "
@@ -54,11 +57,14 @@ ASSUMPTIONS = ["coordinates are symbolic in the model: float rounding inside cen
                "fixed list of public calls, not proved"]
 
 # model variants in the order Encode.run_all emits them: (slice indexes traces, atom_slice inplace resets, join keeps cache)
-NVAR = 8
+NVAR = 10
 VNAME = {0: "repaired", 1: "slice_traces_unindexed", 2: "atom_slice_inplace_keeps_traces",
          3: "slice_traces_unindexed+atom_slice_inplace_keeps_traces"}
 for _i in range(4):
     VNAME[4 + _i] = VNAME[_i] + "+join_hands_on_trimmed_cache"
+# second layer (coq/Traj/Extra.v): make_molecules_whole / image_molecules as found keep _rmsd_traces
+VNAME[8] = "imaging_keeps_traces"
+VNAME[9] = "imaging_keeps_traces+join_hands_on_trimmed_cache"
 ERR = {0: "ok", 1: "IndexError", 2: "ValueError", 3: "TypeError", 9: "NoReg"}
 
 
@@ -437,6 +443,59 @@ def extract_effects(cls):
     return eff
 
 
+def extract_layer2(cls):
+    """facts about restrict_atoms, make_molecules_whole, image_molecules and smooth (coq/Traj/Extra.v: layer2_reading)"""
+    meth = {n.name: n for n in cls.body if isinstance(n, ast.FunctionDef)}
+    out = {}
+    # restrict_atoms: return self.atom_slice(atom_indices, inplace=inplace) and nothing else
+    ra = meth["restrict_atoms"]
+    body = [x for x in ra.body if not (isinstance(x, ast.Expr) and isinstance(x.value, ast.Constant))]
+    out["restrict"] = (
+        len(body) == 1 and isinstance(body[0], ast.Return) and isinstance(body[0].value, ast.Call)
+        and ast.unparse(body[0].value.func) == "self.atom_slice" and len(body[0].value.args) == 1
+        and isinstance(body[0].value.args[0], ast.Name) and body[0].value.args[0].id == ra.args.args[1].arg
+        and [(k.arg, ast.unparse(k.value)) for k in body[0].value.keywords] == [("inplace", "inplace")])
+    # imaging methods
+    resets = []
+    shape_ok = True
+    for nm, kernel in (("make_molecules_whole", "_geometry.whole_molecules"), ("image_molecules", "_geometry.image_molecules")):
+        m = meth[nm]
+        binds = [x for x in ast.walk(m) if isinstance(x, ast.If) and isinstance(x.test, ast.Name) and x.test.id == "inplace"
+                 and len(x.body) == 1 and isinstance(x.body[0], ast.Assign)]
+        ok = (len(binds) == 1 and ast.unparse(binds[0].body[0]) == "result = self" and len(binds[0].orelse) == 1
+              and ast.unparse(binds[0].orelse[0]) == "result = self[:]")
+        calls = [x for x in ast.walk(m) if isinstance(x, ast.Call) and ast.unparse(x.func) == kernel]
+        ok = ok and len(calls) == 1 and calls[0].args and ast.unparse(calls[0].args[0]) in ("result.xyz", "result._xyz")
+        a_self = _assigned(m, "self")
+        a_res = _assigned(m, "result")
+        ok = ok and not a_self and all(a == "_rmsd_traces" and isinstance(v, ast.Constant) and v.value is None and how == "assign"
+                                        for a, v, how in a_res)
+        if a_res and calls:
+            # the reset must come after the kernel call
+            line_reset = max(x.lineno for x in ast.walk(m) if isinstance(x, ast.Assign) and any(
+                isinstance(t_, ast.Attribute) and ast.unparse(t_) == "result._rmsd_traces" for t_ in x.targets))
+            ok = ok and line_reset > calls[0].lineno
+        rets = sorted(ast.unparse(x.value) for x in ast.walk(m) if isinstance(x, ast.Return) and x.value is not None)
+        ok = ok and rets == ["result", "self"]
+        shape_ok = shape_ok and ok
+        resets.append(bool(a_res))
+    if resets[0] != resets[1]:
+        raise Untranslatable("make_molecules_whole and image_molecules differ in resetting _rmsd_traces")
+    out["imaging_shape"] = shape_ok
+    out["imaging_resets"] = resets[0]
+    # smooth
+    sm = meth["smooth"]
+    src = ast.unparse(sm)
+    a_self = _assigned(sm, "self")
+    out["smooth_setter"] = ("xyz = self.xyz.copy()" in src and [a for a, _v, _h in a_self] == ["xyz"]
+                            and ast.unparse(a_self[0][1]) == "xyz" and a_self[0][2] == "assign")
+    ctor = [x for x in ast.walk(sm) if isinstance(x, ast.Call) and ast.unparse(x.func) in ("Trajectory", "self.__class__")]
+    out["smooth_ctor"] = (len(ctor) == 1 and not ctor[0].args and sorted((k.arg, ast.unparse(k.value)) for k in ctor[0].keywords) == sorted([
+        ("xyz", "xyz"), ("topology", "self.topology"), ("time", "self.time"), ("unitcell_lengths", "self.unitcell_lengths"),
+        ("unitcell_angles", "self.unitcell_angles")]))
+    return out
+
+
 def translate(ctx):
     path = os.path.join(REPO, "mdtraj", "core", "trajectory.py")
     try:
@@ -445,6 +504,7 @@ def translate(ctx):
         flows = extract_flows(src_text)
         tree = ast.parse(src_text)
         eff = extract_effects([n for n in tree.body if isinstance(n, ast.ClassDef) and n.name == "Trajectory"][0])
+        l2 = extract_layer2([n for n in tree.body if isinstance(n, ast.ClassDef) and n.name == "Trajectory"][0])
     except Exception as e:
         # outside the translator's grammar (e.g. after a refactoring): no stale term may stand in; the tie for this
         # run is the correspondence alone (main.py records 'translator: degraded')
@@ -457,7 +517,7 @@ def translate(ctx):
     text = ["(* GENERATED on every run by harness/props/C03.py:translate from mdtraj/core/trajectory.py -- do not edit.",
             "   Field data-flow of Trajectory.slice / join / stack / atom_slice and the cache effects of the in-place methods",
             "   (term language and its semantics: MD.Traj.Flow; soundness of the checkers: MD.Traj.FlowProofs). *)",
-            "Require Import MD.Traj.Model MD.Traj.Flow.", ""]
+            "Require Import MD.Traj.Model MD.Traj.Flow MD.Traj.Extra.", ""]
     for k in ("slice", "join", "stack", "atom_slice"):
         text.append("Definition %s_flow : flow := %s." % (k, flows[k]))
     text.append("Definition inplace_effects : effects :=\n  mkEffects %s %s\n            %s %s\n            %s %s %s\n            %s %s %s." % (
@@ -469,12 +529,30 @@ def translate(ctx):
     for k in ("slice", "join", "stack", "atom_slice"):
         text += ["Lemma %s_flow_checks : check_%s %s_flow = true." % (k, k, k), "Proof. vm_compute. reflexivity. Qed."]
     text += ["Lemma inplace_effects_check : check_effects inplace_effects = true.", "Proof. vm_compute. reflexivity. Qed.", ""]
+    text += ["(* second layer (MD.Traj.Extra): restrict_atoms / make_molecules_whole / image_molecules / smooth as read *)",
+             "Definition layer2_as_read : layer2_reading := mkL2 %s %s %s %s %s." % (
+                 cb(l2["restrict"]), cb(l2["imaging_shape"]), cb(l2["imaging_resets"]), cb(l2["smooth_setter"]), cb(l2["smooth_ctor"])),
+             "Lemma layer2_checks : check_layer2 layer2_as_read = true.", "Proof. vm_compute. reflexivity. Qed.", ""]
     ctx.write_gen("Gen/TrajFlow.v", "\n".join(text))
     ctx.notes["translator"] = "ok"
-    ctx.notes["source_variant"] = 0      # the checkers accept the repaired data-flow only
+    # the checkers accept the repaired data-flow only; the imaging methods are read as repaired (0) or as found (8)
+    ctx.notes["source_variant"] = 0 if l2["imaging_resets"] else 8
 
 
 # ----------------------------------------------------------------------------- generator
+# observers that may be called in the middle of a history (harness/impl/traj_impl.py: SMALL_OBSERVERS)
+OBSERVER_NAMES = [
+    "compute_distances", "compute_distances(periodic=False)", "compute_distances(opt=False)", "compute_displacements",
+    "compute_angles", "compute_dihedrals", "compute_rg", "compute_center_of_mass", "compute_center_of_geometry",
+    "compute_inertia_tensor", "compute_gyration_tensor", "compute_contacts", "compute_neighbors", "compute_neighborlist",
+    "compute_rdf", "density", "shrake_rupley", "compute_drid", "find_closest_contact", "rmsd(atom_indices)", "lprmsd",
+    "hash", "eq", "str", "timestep", "unitcell_vectors", "unitcell_volumes", "openmm", "topology.to_dataframe",
+    "topology.select", "topology.find_molecules", "slice", "slice(copy=False)", "join", "stack", "atom_slice",
+    "remove_solvent", "smooth(inplace=False)", "make_molecules_whole(inplace=False)", "image_molecules(inplace=False)",
+    "pickle", "deepcopy"] + ["save(.%s)" % e for e in ("h5", "pdb", "xtc", "trr", "dcd", "nc", "binpos", "mdcrd", "xyz",
+                                                      "lammpstrj", "gro", "rst7", "ncrst", "lh5", "pdb.gz", "dtr")]
+
+
 class Shadow:
     """rough prediction of (n_frames, chains, has_cell) per register, only to bias the generator towards
     histories that mostly succeed; never used in a comparison"""
@@ -491,7 +569,8 @@ def rand_key(rng, n):
     if k < 0.18:
         if n == 0 or rng.random() < 0.08:
             return ["int", rng.choice([n, -n - 1, n + 2])]
-        return [rng.choice(["int", "npint"]), rng.randrange(-n, n)]
+        kind = rng.choice(["int", "int", "npint", "npint", "npint32", "npuint", "arr0d", "tuple1"])
+        return [kind, rng.randrange(0, n) if kind == "npuint" else rng.randrange(-n, n)]
     if k < 0.62:
         def bound():
             return None if rng.random() < 0.3 else rng.randint(-n - 2, n + 2)
@@ -506,7 +585,11 @@ def rand_key(rng, n):
         idx = [rng.randrange(-n, n) for _ in range(ln)]
         if rng.random() < 0.06:
             idx.append(n + rng.randint(0, 2))
-        return [rng.choice(["list", "array"]), idx]
+        if rng.random() < 0.15:
+            a, b, c = rng.randint(-1, n + 1), rng.randint(-2, n + 1), rng.choice([1, 1, 2, -1, -2])
+            if all(-n <= i < n for i in range(a, b, c)) or rng.random() < 0.3:
+                return ["range", [a, b, c]]
+        return [rng.choice(["list", "list", "array", "array", "listnp", "array32", "tuplearr"]), idx]
     m = [rng.random() < 0.6 for _ in range(n)]
     if rng.random() < 0.06:
         m = m + [True]
@@ -516,11 +599,14 @@ def rand_key(rng, n):
 def key_len(key, n):
     kind, v = key
     try:
-        if kind in ("int", "npint"):
+        if kind in ("int", "npint", "npint32", "npuint", "arr0d", "tuple1"):
             return 1 if -n <= v < n else None
         if kind == "slice":
             return len(range(*slice(*v).indices(n)))
-        if kind in ("list", "array"):
+        if kind == "range":
+            v = list(range(*v))
+            kind = "list"
+        if kind in ("list", "array", "listnp", "array32", "tuplearr"):
             return len(v) if all(-n <= i < n for i in v) else None
         return sum(v) if len(v) == n else None
     except ValueError:
@@ -553,8 +639,8 @@ def gen_history(rng, specs, length):
         n, na = reg["n"], sh.na(r)
         kind = rng.choices(
             ["getitem", "slice_nc", "join", "mdjoin", "stack", "atom_slice", "remove_solvent", "center", "superpose",
-             "set_xyz", "set_time", "set_cell"],
-            [22, 9, 8, 3, 6, 10, 3, 14, 7, 5, 3, 6])[0]
+             "set_xyz", "set_time", "set_cell", "restrict_atoms", "image", "smooth", "observe"],
+            [22, 9, 8, 3, 6, 10, 3, 14, 7, 5, 3, 6, 2, 6, 3, 5])[0]
         if kind in ("getitem", "slice_nc"):
             key = rand_key(rng, n)
             cp = kind == "getitem"
@@ -624,6 +710,37 @@ def gen_history(rng, specs, length):
                 else:
                     sh.regs.append(nr)
                 del flat
+        elif kind == "restrict_atoms":
+            if na == 0:
+                continue
+            inplace = rng.random() < 0.5
+            idx = sorted(rng.sample(range(na), rng.randint(1, na)))
+            ops.append(["restrict_atoms", r, idx, inplace])
+            newc, pos = [], 0
+            for c in reg["chains"]:
+                kept = [c[j] for j in range(len(c)) if (pos + j) in idx]
+                pos += len(c)
+                if kept:
+                    newc.append(kept)
+            nr = {"n": n, "chains": newc, "cell": reg["cell"]}
+            if inplace:
+                sh.regs[r] = nr
+            else:
+                sh.regs.append(nr)
+        elif kind == "image":
+            if not reg["cell"] and rng.random() < 0.8:
+                continue
+            inplace = rng.random() < 0.5
+            ops.append(["image", r, rng.choice(["whole", "image"]), inplace])
+            if not inplace and reg["cell"]:
+                sh.regs.append(dict(reg))
+        elif kind == "smooth":
+            inplace = rng.random() < 0.5
+            ops.append(["smooth", r, inplace])
+            if not inplace and (n >= 3 or na == 0):
+                sh.regs.append(dict(reg))
+        elif kind == "observe":
+            ops.append(["observe", r, rng.choice(OBSERVER_NAMES)])
         elif kind == "remove_solvent":
             inplace = rng.random() < 0.4
             ops.append(["remove_solvent", r, inplace])
@@ -690,7 +807,14 @@ def exhaustive_histories(length):
     the second operand is register 1"""
     alphabet = ["center", "center_mw", "t[1:]", "t[::-1]", "t[[2,0]]", "t[1]", "nc[0:2]", "join", "stack", "aslice",
                 "aslice_ip", "superpose", "set_xyz", "rmsolv_ip"]
-    for seq in itertools.product(alphabet, repeat=length):
+    newl = ["whole_ip", "image_cp", "smooth_cp", "smooth_ip"]
+    partner = ["center", "t[1:]", "nc[0:2]", "join"] + newl
+    seqs = list(itertools.product(alphabet, repeat=length))
+    if length == 1:
+        seqs += [(a,) for a in newl]
+    elif length == 2:
+        seqs += [(a, b) for a in partner for b in partner if a in newl or b in newl]
+    for seq in seqs:
         if seq.count("superpose") > 2 or seq.count("stack") > 2:
             continue
         sh = Shadow(EXH_SPECS)
@@ -736,6 +860,17 @@ def exhaustive_histories(length):
                 ops.append(["superpose", L, 1, 1])
             elif a == "set_xyz":
                 ops.append(["set_xyz_new", L, n, na])
+            elif a == "whole_ip":
+                ops.append(["image", L, "whole", True])
+            elif a == "image_cp":
+                ops.append(["image", L, "image", False])
+                new = dict(reg)
+            elif a == "smooth_cp":
+                ops.append(["smooth", L, False])
+                if n >= 3:
+                    new = dict(reg)
+            elif a == "smooth_ip":
+                ops.append(["smooth", L, True])
             elif a == "rmsolv_ip":
                 ops.append(["remove_solvent", L, True])
                 sh.regs[L] = dict(reg, chains=[c2 for c2 in [[k for k in c if k < 100] for c in reg["chains"]] if c2])
@@ -821,6 +956,55 @@ def bonded_history(rng, specs, length):
     return out
 
 
+def imaging_history(rng, specs):
+    """the imaging methods and smooth in the positions where a stale cache would show: after center_coordinates, on the
+    object itself and on the returned copy, through a copy=False view, followed by slicing / joining / centring again"""
+    ops = []
+    R = len(specs)
+    if rng.random() < 0.8:
+        ops.append(["center", 0, rng.random() < 0.1])
+    if rng.random() < 0.3:
+        ops.append(["slice", 0, ["slice", [rng.choice([None, 0, 1]), None, None]], rng.random() < 0.5])
+    L = R + sum(1 for o in ops if o[0] == "slice")
+    tgt = rng.choice([0, L - 1])
+    what = rng.random()
+    if what < 0.6:
+        ip = rng.random() < 0.5
+        ops.append(["image", tgt, rng.choice(["whole", "image"]), ip])
+        res = tgt if ip else L
+    elif what < 0.85:
+        ip = rng.random() < 0.5
+        ops.append(["smooth", tgt, ip])
+        res = tgt if ip else L
+    else:
+        ip = rng.random() < 0.5
+        ops.append(["restrict_atoms", tgt, [0, 1], ip])
+        res = tgt if ip else L
+    tail = rng.random()
+    if tail < 0.25:
+        ops.append(["slice", res, ["slice", [1, None, None]], True])
+    elif tail < 0.4:
+        ops.append(["center", res, False])
+    elif tail < 0.55:
+        ops.append(["join", res, [res], True, None, rng.random() < 0.5])
+    elif tail < 0.7:
+        ops.append(["image", res, "whole", rng.random() < 0.5])
+    elif tail < 0.8:
+        ops.append(["atom_slice", res, [0, 1], rng.random() < 0.5])
+    ops.append(["observe", rng.randrange(R), rng.choice(OBSERVER_NAMES)])
+    return ops
+
+
+def observer_history(rng, specs, length):
+    """a random history, then a handful of observers on the registers it left behind (cache present or not, views,
+    Fortran-ordered cell arrays, integer / float32 / float64 times)"""
+    ops = gen_history(rng, specs, length)
+    sh_n = len(specs) + sum(1 for o in ops if o[0] in ("slice", "join", "mdjoin", "stack"))   # upper bound; NoReg is harmless
+    for _ in range(rng.randint(4, 8)):
+        ops.append(["observe", rng.randrange(max(1, min(sh_n, len(specs) + 2))), rng.choice(OBSERVER_NAMES)])
+    return ops
+
+
 def fixed_probes():
     """the historical witnesses and a few structural probes, always run first"""
     s3 = [[5, [[1, 2, 100], [4]], True, True], [3, [[1, 2, 100], [4]], True, True], [5, [[8, 9, 10, 11]], False, False]]
@@ -868,6 +1052,23 @@ def fixed_probes():
     # incompatible operand is looked at (a list join would have refused the incompatible one first)
     P.append((s3, [["slice", 0, ["list", []], True], ["mdjoin", [0, 3, 2], True], ["mdjoin", [0, 2, 3], True], ["mdjoin", [0, 3, 2], False],
                    ["join", 0, [3, 2], True, None, True], ["mdjoin", [3, 0, 1], True], ["mdjoin", [0, 1, 0, 1], True]]))
+    # second layer: the imaging methods after centring (object itself, returned copy, through a view), smooth both ways,
+    # restrict_atoms both ways, each followed by something that would show a stale or misplaced cache
+    P.append((s3, [["center", 0, False], ["image", 0, "whole", True], ["slice", 0, ["slice", [1, None, None]], True]]))
+    P.append((s3, [["center", 0, False], ["image", 0, "image", False], ["image", 0, "whole", False], ["center", 3, False],
+                   ["image", 2, "whole", True]]))
+    P.append((s3, [["center", 0, False], ["slice", 0, ["slice", [1, 4, None]], False], ["image", 3, "image", True],
+                   ["smooth", 0, False], ["smooth", 0, True], ["smooth", 1, True], ["smooth", 2, False]]))
+    P.append((s3, [["center", 0, False], ["restrict_atoms", 0, [0, 2], False], ["restrict_atoms", 0, [1, 3], True],
+                   ["observe", 0, "save(.h5)"], ["observe", 0, "compute_distances"], ["observe", 3, "save(.xtc)"],
+                   ["observe", 1, "image_molecules(inplace=False)"], ["observe", 0, "rmsd(atom_indices)"]]))
+    # every spelling of an integer and of an index list
+    P.append((s3, [["slice", 0, ["npint32", -2], True], ["slice", 0, ["npuint", 3], True], ["slice", 0, ["arr0d", 1], True],
+                   ["slice", 0, ["tuple1", -1], True], ["slice", 0, ["range", [0, 5, 2]], True], ["slice", 0, ["range", [4, -1, -1]], True],
+                   ["slice", 0, ["range", [0, 0, 1]], True], ["slice", 0, ["range", [3, 7, 1]], True], ["slice", 0, ["listnp", [4, 0, 0]], True],
+                   ["slice", 0, ["array32", [-1, 2]], True], ["slice", 0, ["tuplearr", [1, 1]], True],
+                   ["slice", 0, ["masklist", [True, False, True, True, False]], True], ["slice", 0, ["arr0d", 2], False],
+                   ["slice", 0, ["range", [1, 3, 1]], False], ["slice", 0, ["masklist", [False] * 5], True]]))
     return [{"specs": s, "ops": o, "stream": "probe"} for s, o in P]
 
 
@@ -875,7 +1076,7 @@ def build_cases(ctx):
     rng = ctx.rng
     quick = ctx.tier == "quick"
     cases = fixed_probes()
-    nrand = 260 if quick else 2400
+    nrand = 230 if quick else 2400
     maxlen = 8 if quick else 20
     for i in range(nrand):
         specs = gen_specs(rng)
@@ -889,6 +1090,16 @@ def build_cases(ctx):
         specs = gen_specs(rng)
         cases.append({"specs": specs, "ops": bonded_history(rng, specs, rng.randint(2, 8)), "stream": "bonded-topology",
                       "bonded": True})
+    for i in range(40 if quick else 450):
+        specs = gen_specs(rng)
+        specs[0][0] = rng.randint(3, 6)
+        specs[0][2] = True if rng.random() < 0.9 else specs[0][2]
+        bonded = rng.random() < 0.6
+        cases.append({"specs": specs, "ops": imaging_history(rng, specs), "stream": "imaging", "bonded": bonded})
+    for i in range(25 if quick else 300):
+        specs = gen_specs(rng)
+        cases.append({"specs": specs, "ops": observer_history(rng, specs, rng.randint(1, 6)), "stream": "observers-after-history",
+                      "bonded": rng.random() < 0.5})
     for L in ([1, 2] if quick else [1, 2, 3]):
         for ops in exhaustive_histories(L):
             cases.append({"specs": EXH_SPECS, "ops": ops, "stream": "exhaustive%d" % L})
@@ -898,18 +1109,42 @@ def build_cases(ctx):
 
 
 # ----------------------------------------------------------------------------- Coq side
+# a 0-d integer ARRAY selects one row like an integer, but by advanced indexing: a copy even with copy=False, exactly as
+# the one-element index list does
+INT_KEYS = ("int", "npint", "npint32", "npuint", "tuple1")
+LIST_KEYS = ("list", "array", "listnp", "array32", "tuplearr")
+
+
 def coq_key(k):
     kind, v = k
-    if kind in ("int", "npint"):
+    if kind in INT_KEYS:
         return "(KInt %s)" % cz(v)
     if kind == "slice":
         return "(KSlice %s %s %s)" % tuple(copt(x, cz) for x in v)
-    if kind in ("list", "array"):
+    if kind in LIST_KEYS:
         return "(KList %s)" % clist(v, cz)
+    if kind == "range":
+        return "(KList %s)" % clist(list(range(*v)), cz)
+    if kind == "arr0d":
+        return "(KList %s)" % clist([v], cz)
     return "(KMask %s)" % clist(v, cbool)
 
 
 def coq_op(o):
+    """an operation of the extended alphabet (coq/Traj/Extra.v: xop)"""
+    n = o[0]
+    if n == "restrict_atoms":
+        return "XRestrictAtoms %s %s %s" % (cnat(o[1]), clist(o[2], cz), cbool(o[3]))
+    if n == "image":      # ["image", r, "whole" | "image", inplace]
+        return "XImage %s %s" % (cnat(o[1]), cbool(o[3]))
+    if n == "smooth":
+        return "XSmooth %s %s" % (cnat(o[1]), cbool(o[2]))
+    if n == "observe":
+        return "XObserve %s" % cnat(o[1])
+    return "XBase (%s)" % coq_base_op(o)
+
+
+def coq_base_op(o):
     n = o[0]
     if n == "slice":
         return "OSlice %s %s %s" % (cnat(o[1]), coq_key(o[2]), cbool(o[3]))
@@ -957,8 +1192,8 @@ def coq_run_all(ctx, cases, shard=30, par=4):
     files = []
     for si, sh in enumerate(shards):
         lines = ["From Coq Require Import ZArith List Bool Uint63.", "Import ListNotations.",
-                 "Require Import MD.Traj.Model MD.Traj.Encode.", "Open Scope nat_scope.",
-                 "Definition cases : list (list spec * list op) := ["]
+                 "Require Import MD.Traj.Model MD.Traj.Extra MD.Traj.Encode.", "Open Scope nat_scope.",
+                 "Definition cases : list (list spec * list xop) := ["]
         lines.append(";\n".join(coq_case(c) for c in sh))
         lines.append("].")
         lines.append("Set Printing Width 200000. Set Printing Depth 100000000.")
@@ -1063,7 +1298,13 @@ def decode_all(xs):
     rd = Rd(xs)
     worlds = [rd.world()]
     for _ in range(NVAR - 1):
-        worlds.append(rd.world() if rd.one() else None)
+        tag = rd.one()
+        if tag == 1:
+            worlds.append(rd.world())
+        elif tag == 2:                       # by construction the run of an earlier variant (Encode.run_all)
+            worlds.append(worlds[rd.one()])
+        else:
+            worlds.append(None)
     plans = []
     while rd.i < len(xs):
         tag = rd.one()
@@ -1266,6 +1507,8 @@ def explain_stale(worlds, reg, case):
         return reg < len(ts) and not ts[reg]["cache_ok"]
     if stale(0):
         return "inplace_write_through_shared_xyz_buffer"
+    if stale(8) and not any(stale(i) for i in (1, 2, 3)):
+        return "imaging_keeps_traces"
     if stale(1) and not stale(2):
         return "slice_traces_unindexed"
     if stale(2) and not stale(1):
@@ -1327,6 +1570,8 @@ def run_cases(ctx, cases, replaying=False):
                    "no model variant reproduces the implementation on all cases (closest: %s, %d/%d cases differ); e.g. "
                    "specs=%s ops=%s -> %s" % (VNAME[best], len(bad), len(cases), cases[i]["specs"], cases[i]["ops"], diffs[i][best][:3]))
         ctx.notes.setdefault("tie_examples", []).append({"case": cases[i], "diff": diffs[i][best][:5]})
+        for j in bad[1:6]:
+            ctx.log("  also differs:", cases[j]["ops"], "->", diffs[j][best][:2])
         agree = best
     sv = ctx.notes.get("source_variant")
     if sv is not None and not replaying and any(d[sv] for d in diffs) and not ctx.broken:
@@ -1337,6 +1582,23 @@ def run_cases(ctx, cases, replaying=False):
     ctx.notes.setdefault("coverage_extra", {})["source_text_variant"] = VNAME.get(sv)
     ctx.notes["coverage_extra"]["superposed_frames_compared"] = len(SUP_STATS)
     ctx.notes["coverage_extra"]["superposed_frames_rigid_but_not_optimal(C06, not counted as mismatch)"] = len(SUP_NOT_OPTIMAL)
+    # input distribution of the axes added by the deepening round (printed into the evidence)
+    ce = ctx.notes.setdefault("coverage_extra", {})
+    kk = ce.setdefault("getitem_key_spellings", {})
+    oc = ce.setdefault("observer_calls_inside_histories", {"calls": 0, "raised(not counted as changes)": 0, "distinct_observers": []})
+    l2 = ce.setdefault("second_layer_ops_succeeded", {})
+    for c, im in zip(cases, impl):
+        for o, st in zip(c["ops"], im["steps"]):
+            if o[0] == "slice":
+                kk[o[2][0]] = kk.get(o[2][0], 0) + 1
+            if st == "ok" and o[0] in ("restrict_atoms", "image", "smooth"):
+                nm = o[0] + ("(inplace)" if o[-1] else "(copy)")
+                l2[nm] = l2.get(nm, 0) + 1
+        for _si, nm, st in im.get("observed", []):
+            oc["calls"] += 1
+            oc["raised(not counted as changes)"] += st != "ok"
+            if nm not in oc["distinct_observers"]:
+                oc["distinct_observers"].append(nm)
     # 2. the property, judged by the model-free oracles on the implementation
     for ci, (c, im, w) in enumerate(zip(cases, impl, worlds)):
         case = {"seed": c["seed"], "specs": c["specs"], "ops": c["ops"]}
@@ -1347,7 +1609,7 @@ def run_cases(ctx, cases, replaying=False):
             op = c["ops"][p["step"]]
             ctx.fail("%s: %s%s" % (op[0], p["kind"], (" (" + p["field"] + ")") if "field" in p else ""), case,
                      observed=p, expected="numpy indexing/concatenation of the inputs; fresh arrays",
-                     tags={"kind": p["kind"], "op": op[0], "explained_by": None})
+                     tags={"kind": p["kind"], "op": op[0], "explained_by": None, "observer": p.get("observer")})
         for ri, reg in enumerate(im["regs"]):
             stale = reg["cache"] not in ("none", "ok")
             differs = isinstance(reg["rmsd_diff"], float) and reg["rmsd_diff"] > 0.02
@@ -1375,7 +1637,7 @@ def observers(ctx):
     for k in changed:
         ctx.fail("%s modified its input trajectory" % k, {"observer": k}, observed=res[k],
                  expected="arrays and topology dump hash identically before and after",
-                 tags={"kind": "observer-modifies-input", "call": k, "explained_by": None})
+                 tags={"kind": "observer-modifies-input", "call": k, "observer": k.split(" [")[0], "explained_by": None})
     for k in res:
         ctx.count({"observer": k}, nontrivial=True, bucket="observer")
 
